@@ -86,6 +86,9 @@ fn main() {
     if args.len() >= 10 && args[1] == "scrypt-child" {
         c18::child_main(&args[2..]);
     }
+    if args.len() >= 4 && args[1] == "ffi-child" {
+        c18::ffi_child_main(&args[2..]);
+    }
     proc::detach_tty();
     if args.len() < 2 {
         eprintln!("usage: kv <ID>|selftest|list [--tier quick|thorough] [--replay PATH]");
